@@ -6,7 +6,7 @@
 from jaqalpaq.error import JaqalError
 from jaqalpaq.core.algorithm.visitor import Visitor
 from jaqalpaq.core import circuitbuilder
-from jaqalpaq.core.parameter import Parameter
+from jaqalpaq.core.parameter import AnnotatedValue
 
 
 def fill_in_map(circuit):
@@ -29,6 +29,9 @@ def fill_in_map(circuit):
 
 
 class MapFiller(Visitor):
+    # Names of the parameters of the macro whose body is being visited
+    shadowed = frozenset()
+
     ##
     # Visitor Methods
     #
@@ -96,9 +99,14 @@ class MapFiller(Visitor):
         """Map this to a fundamental register and index and return it."""
         if _depends_on_parameter(qubit):
             # Which qubit this is cannot be known before the macro is
-            # expanded; leave the reference as it is.
+            # expanded and the let constants are filled in; leave the
+            # reference as it is.
             return qubit
         reg, index = qubit.resolve_qubit()
+        if reg.name in self.shadowed:
+            # Inside this macro the name of the register denotes a
+            # parameter, so the resolved qubit cannot be spelled here.
+            return qubit
         return reg[index]
 
     def visit_Register(self, reg):
@@ -123,7 +131,11 @@ class MapFiller(Visitor):
         qubits which have type NamedQubit, so they are easily differentiated
         (unlike at the Jaqal level where they are both text identifiers).
         """
-        gate_block = self.visit(macro.body)
+        self.shadowed = {param.name for param in macro.parameters}
+        try:
+            gate_block = self.visit(macro.body)
+        finally:
+            self.shadowed = set()
         sexpr = [
             "macro",
             macro.name,
@@ -134,12 +146,20 @@ class MapFiller(Visitor):
 
 
 def _depends_on_parameter(obj):
-    """Return whether resolving this qubit needs the value of a macro
-    parameter, either as its index or somewhere along its alias chain."""
+    """Return whether resolving this qubit needs a value that is not known
+    yet: a macro parameter or a let constant (which may still be
+    overridden), as its index, as an alias bound or somewhere along its
+    alias chain."""
     while obj is not None:
-        if isinstance(obj, Parameter):
+        if isinstance(obj, AnnotatedValue):
             return True
-        if isinstance(getattr(obj, "alias_index", None), Parameter):
+        if isinstance(getattr(obj, "alias_index", None), AnnotatedValue):
+            return True
+        alias_slice = getattr(obj, "alias_slice", None)
+        if alias_slice is not None and any(
+            isinstance(bound, AnnotatedValue)
+            for bound in (alias_slice.start, alias_slice.stop, alias_slice.step)
+        ):
             return True
         obj = getattr(obj, "alias_from", None)
     return False
